@@ -1,5 +1,5 @@
 #!/usr/bin/env python3
-"""Write meta.json for the round-4 to -11 seeded changes from RESULTS.tsv (run after tools/run_seeded.sh)."""
+"""Write meta.json for the round-4 to -12 seeded changes from RESULTS.tsv (run after tools/run_seeded.sh)."""
 import json, os, collections
 V = "/verif/seeded"
 DESC = {
@@ -163,6 +163,28 @@ DESC = {
               "a crop run whose reaped rows are identical to the last n rows already in the table: 0 rows appended instead of n"),
  "S-C16-11": ("gen_cluster_script raises in array mode when crop.is_ready_to_reap()",
               "explicit batch_ids on a fully grown (not yet reaped) crop, array mode: XYZError instead of a script that re-grows those ids"),
+ "S-C01-12": ("combo_runner_core drops constants whose value is None ('unset constants fall back to the function's defaults')",
+              "a constant given as None: it is not passed, every slot holds the value computed with the function's default (or TypeError without a default)"),
+ "S-C04-12": ("Crop.sow_cases re-keys every case dict with the first case's key order, by position",
+              "dict cases of which one lists its keys in another order than the first: grown with swapped arguments"),
+ "S-C05-12": ("save_merge_ds looks for the existing file with the default engine's extension",
+              "save_merge_ds(ds, name_without_extension, engine='joblib') on an existing name.dmp: the old dataset is treated as absent and overwritten"),
+ "S-C06-12": ("Crop.parse_constants fills in stored runner constants / resources wherever the sow-time value `is None`",
+              "a sow-time constant that is None and shadows a stored non-None runner constant: batches are grown with the stored value, a direct run with None"),
+ "S-C08-12": ("Crop.missing_results lists results/ once and takes the id from any name starting with 'xyz-result-' (suffix unchecked)",
+              "a left-over or in-flight temporary xyz-result-i.jbdmp.<uuid>.tmp without the result itself: batch i is not reported missing, grow_missing skips it"),
+ "S-C09-12": ("Reaper._load parses the batch number with re.search(r'-(\\d+)\\.', full_path)",
+              "partial reap of a crop whose location contains '-<digits>.' before the file name (name 'sim-1.5') and whose batches differ in length: XYZError / StopIteration"),
+ "S-C10-12": ("Crop._sync_info_from_disk keeps a batchsize / num_batches given to the constructor over what was sown (the edit of S-C08-10, written against C10)",
+              "num_batches larger than the number of cases, kill during growing, recovery through a fresh Crop built with the original arguments: grow_missing looks for phantom batches"),
+ "S-C11-12": ("grow() 'recovers' a non-empty temporary of its batch by renaming it into place and returning",
+              "the same batch grown twice at once with results larger than the write buffer: the second grower publishes the first one's partly written temporary"),
+ "S-C12-12": ("Harvester.add_ds returns early when the new dataset holds no non-null value",
+              "a harvester crop whose function returned nan for every case: nothing is merged or saved, the crop is deleted"),
+ "S-C15-12": ("Sampler.add_df drops all-NA columns from both frames before concatenating",
+              "second or later run where every accumulated and every new row is nan in one column: the column disappears from the table"),
+ "S-C16-12": ("Crop.missing_results memoised on the object, keyed on (num_batches, number of result files), never invalidated",
+              "one Crop object: query, then reap / re-sow / grow another batch (same count), then gen_cluster_script(array, batch_ids=None): the script carries the stale ids"),
 }
 rows = collections.defaultdict(dict)
 own = {}
@@ -203,7 +225,7 @@ for sid, (change, needs) in DESC.items():
                    "'the hard round: the subtlest violation you can construct that is still clearly inside the property' "
                    "(one data type or shape, a sequence of >= 3 calls, two rarely combined options, an arithmetic "
                    "relation between sizes, dictionary / listing order, a plausible-looking wrong result), and a "
-                   "scratch worktree of /repo (no access to /verif)") if sid.split("-")[2] in ("7", "8", "9", "10", "11") else
+                   "scratch worktree of /repo (no access to /verif)") if sid.split("-")[2] in ("7", "8", "9", "10", "11", "12") else
                   ("independent sub-agent given only the property text, the ideas used in rounds 1-4, a request for a "
                    "change that leaves every sequential fault-free use correct and breaks the property only in one "
                    "crash window / interleaving / I-O error (with a focus area), and a scratch worktree of /repo "
